@@ -14,6 +14,8 @@ def run(tier):
         if spec in REACH:
             env["H_REACH"] = REACH[spec]
         conds.append(Cond("h_parse_str.py", "complete", to, twin="reach", path_timeout=to / 2, env=env))
+    # a star directly followed by its own body inside a counted repetition (known finding C05-starrep on 'aac')
+    conds.append(Cond("h_parse_str.py", "complete", to, path_timeout=to / 2, env={"H_SPEC": "starrep", "H_LEN": "3" if tier == "quick" else "5"}))
     for spec, alpha, ql, tl in RX_SPECS:
         conds.append(Cond("h_parse_str.py", "complete_fa", to, path_timeout=to / 2,
                           env={"H_SPEC": spec, "H_LEN": str(ql if tier == "quick" else tl), "H_ALPHA": alpha}))
